@@ -248,6 +248,13 @@ static std::string step(const std::vector<std::string>& w) {
     u.update(need(uobjs, I(w.at(3))).sk()); u.update(need(uobjs, I(w.at(4))).sk());
     UObj o; o.cmp.reset(new ctuple(u.get_result())); uobjs[I(w.at(1))] = std::move(o); return "ok";
   }
+  if (op == "ufilter") {        // ufilter dst src thr: entries whose summary is >= thr (a derived sketch: same theta, never "empty" if the source estimates)
+    const double thr = (double)I(w.at(3));
+    auto pred = [thr](const double& v) { return v >= thr; };
+    const UObj& src = need(uobjs, I(w.at(2)));
+    UObj o; o.cmp.reset(new ctuple(src.upd ? src.upd->filter(pred) : src.cmp->filter(pred)));
+    uobjs[I(w.at(1))] = std::move(o); return "ok";
+  }
   if (op == "uobs") {
     const auto& s = need(uobjs, I(w.at(1))).sk();
     const std::string line0 = est_line("U", s);
